@@ -1,6 +1,7 @@
 """Sidecar contracts for cutplace/validio.py: BaseValidator.validate_row / close, Reader.rows, Writer (C04, C05, C06, C07, C08, C14, C20)."""
 import io, itertools, z3
 from .common import *
+from vf import findings
 from vf.unit import ProofUnit, NativeUnit, Oracle, sweep
 from vf.model import *
 
@@ -730,6 +731,8 @@ class WriterFileOracle(Oracle):
     the file read back from the path under the same CID returns the accepted rows"""
     bound = "1-2 rows of two text cells over {ab, e-acute, euro, a CR b, a LF b, quote, comma} x encodings {utf-8, ascii, latin-1} x delimited (line delimiter any/lf/cr/crlf) and fixed (lf/crlf/cr/none), written to and read back from a file"
     VALUES = ["ab", "\u00e9", "\u20ac", "a\rb", "a\nb", 'a"b', "a,b"]
+    def __init__(self):
+        self.known_k10 = findings.is_known("K-10", "C14"); self.k10 = []
     def cases(self, ctx):
         rows1 = [[a, b] for a in self.VALUES for b in self.VALUES]
         for fmt in ("delimited", "fixed"):
@@ -763,7 +766,15 @@ class WriterFileOracle(Oracle):
             if fmt == "fixed":
                 want_text = "".join("".join(x.ljust(3) for x in r) + sep for r in accepted)
                 if raw != want_text: return {"expected": "file content %r (exactly the accepted rows, nothing for a rejected row)" % want_text, "observed": repr(raw)}
-            elif not accepted and raw != "": return {"expected": "an empty file (every row was rejected)", "observed": repr(raw)}
+            else:
+                # delimited: the accepted rows in csv notation (the CID's defaults: comma, double quote, minimal quoting), each ended by the declared line delimiter
+                import csv, io as _io
+                def as_csv(lt):
+                    buf = _io.StringIO(); csv.writer(buf, delimiter=",", quotechar='"', doublequote=True, quoting=csv.QUOTE_MINIMAL, lineterminator=lt).writerows(accepted); return buf.getvalue()
+                if raw != as_csv(sep):
+                    # recorded finding K-10: the delimited writer ends every line with CR LF whatever the CID declares; excused is exactly that content
+                    if self.known_k10 and ld in ("lf", "cr") and raw == as_csv("\r\n"): self.k10.append((c, raw))
+                    else: return {"expected": "file content %r (the accepted rows, each ended by the declared line delimiter, nothing for a rejected row)" % as_csv(sep), "observed": repr(raw)}
             try: back = list(validio.rows(interface.create_cid_from_string(text), path))
             except errors.DataError as e: return {"expected": "the written file validates again", "observed": "%s (file %r)" % (e, raw)}
             want = [[x.ljust(3) for x in r] for r in accepted] if fmt == "fixed" else accepted
@@ -793,6 +804,26 @@ def _writer_close_with_failing_end_check(fmt):
         shutil.rmtree(d, ignore_errors=True)
 
 
+def _writer_from_cid_path(fmt):
+    """Writer accepts 'cid_or_path' like Reader does: created from the path of a CID file it writes the same as from the loaded Cid"""
+    import tempfile, os, shutil
+    from cutplace import interface, validio, errors
+    text = ("d,format,delimited\nf,a\nf,b\n" if fmt == "delimited" else "d,format,fixed\nd,line delimiter,lf\nf,a,,,2\nf,b,,,2\n")
+    d = tempfile.mkdtemp(prefix="c14_")
+    try:
+        cid_path = os.path.join(d, "cid.csv"); open(cid_path, "w", encoding="utf-8").write(text)
+        outs = []
+        for k, cid in enumerate((interface.Cid(cid_path), cid_path)):
+            out = os.path.join(d, "out%d.txt" % k)
+            try:
+                with validio.Writer(cid, out) as w: w.write_row(["a1", "b1"]); w.write_row(["a2", "b2"])
+            except errors.CutplaceError as e: return {"expected": "two rows written", "observed": repr(e)}
+            outs.append(open(out, "rb").read())
+        return None if outs[0] == outs[1] and outs[0] else {"expected": "the same output from Writer(Cid, ...) and Writer(path of the CID, ...)", "observed": repr(outs)}
+    finally:
+        shutil.rmtree(d, ignore_errors=True)
+
+
 def _writer_unique_on_what_is_written(case):
     """IsUnique in a fixed-width CID: the writer judges the values as they are written (padded), so that the output validates again"""
     from cutplace import interface, validio, errors
@@ -812,7 +843,13 @@ def _writer_unique_on_what_is_written(case):
 def unit_writer_file_sweep():
     def run(ctx):
         f = WriterFileOracle()
-        return [sweep("C14/sweep/write to a file in the CID's encoding, read the file back", f.cases(ctx), f.check, "bounded", f.bound, describe=f.describe, function="validio.Writer + rowio writers + validio.rows", unit="C14.files")]
+        res = [sweep("C14/sweep/write to a file in the CID's encoding, read the file back", f.cases(ctx), f.check, "bounded", f.bound + (" (line ends of delimited output under line delimiter lf / cr: recorded finding K-10)" if f.known_k10 else ""),
+                     describe=f.describe, function="validio.Writer + rowio writers + validio.rows", unit="C14.files")]
+        if f.k10:
+            c, raw = f.k10[0]
+            res.append(Result("C14/K-10 witness: delimited output ends its lines with CR LF although the CID declares another line delimiter", "bounded", FAILED, "native", finding="K-10", cases=len(f.k10), props=["C14"], detail=repr(raw)[:200],
+                              replay={"verdict": "confirmed", "input": f.describe(c), "expected": "lines ended by the declared line delimiter", "observed": repr(raw)}))
+        return res
     return NativeUnit("C14.files", "bounded sweep: writer bound to a path in the CID's encoding, unencodable rows leave no trace, the file read back through the validating reader", ["C14", "C12", "C13"], run, kind="bounded")
 
 
@@ -824,7 +861,9 @@ def unit_writer_sweep():
                 sweep("C14/sweep/uniqueness is judged on the values as they are written (fixed width: padded)", [c for n_ in (2, 3) for c in itertools.product(["ab", "ab ", "a", "a  ", "abc", ""], repeat=n_)], _writer_unique_on_what_is_written, "bounded",
                       "all sequences of 2-3 values over {ab, 'ab ', a, 'a  ', abc, ''} in a 3-wide IsUnique field", describe=lambda c: {"values": list(c)}, function="validio.Writer.write_row", unit="C14.sweep"),
                 sweep("C14/sweep/a failing end-of-data check at close() still leaves the accepted rows in a closed file", ["delimited", "fixed"], _writer_close_with_failing_end_check, "bounded", "2 formats, 3 rows, DistinctCount failing at close",
-                      describe=lambda c: {"format": c}, function="validio.Writer.close", unit="C14.sweep")]
+                      describe=lambda c: {"format": c}, function="validio.Writer.close", unit="C14.sweep"),
+                sweep("C14/sweep/a writer created from the path of a CID writes what a writer created from the loaded Cid writes", ["delimited", "fixed"], _writer_from_cid_path, "bounded", "2 formats, 2 rows",
+                      describe=lambda c: {"format": c}, function="validio.Writer.__init__", unit="C14.sweep", props=["C14", "C10"])]
     return NativeUnit("C14.sweep", "bounded sweep: Writer emits exactly the accepted rows, nothing for rejected ones, output validates again (incl. after an earlier read with the same CID)", ["C14", "C08"], run, kind="bounded")
 
 
@@ -1024,24 +1063,37 @@ def unit_reader_init():
 
 
 def unit_validate_rows():
+    """C07: 'the validate-only API stops after N data rows' - Reader.validate_rows is that API for a Reader (the command line uses it)"""
+    OI = sort_of(Opt(INT))
     def setup(ex, st):
-        self = Ref("Reader"); st.heap[self.oid] = {}
-        rows, c = fresh(UFList(UFList(STR)) if False else UFList(STR), "rows"); st.pc.extend(c)
-        st.frames[-1].env.update({"self": self}); st.ghost.update({"rows": rows, "rows_called": 0, "rows_failed": False, "fail_at": fresh(INT, "fail_at")[0]})
+        vu = fresh(Opt(INT), "validate_until")[0]; st.pc.append(z3.Or(OI.is_none(vu.z), OI.val(vu.z) >= 0))
+        self = Ref("Reader"); st.heap[self.oid] = {"_validate_until": vu}
+        rows, c = fresh(UFList(STR), "rows"); st.pc.extend(c)
+        st.frames[-1].env.update({"self": self}); st.ghost.update({"rows": rows, "items": rows, "vu": vu, "rows_called": 0, "rows_failed": False, "fail_at": fresh(INT, "fail_at")[0]})
     def m_rows(ex, st, recv, args, kw):
         st.ghost["rows_called"] = Sym(INT, G(st, "rows_called") + 1)
         def raise_fn(ex_, s): 
             s.ghost["rows_failed"] = True
             yield from raise_new(ex_, s, "DataError")
         yield st, FallibleIter(st.ghost["rows"], st.ghost["fail_at"], raise_fn)
+    def consumed_ok(ex, st):
+        vu = G(st, "vu"); n = st.ghost["rows"].length; i = lift(st.frames[-1].env.get("_i0", 0)).z
+        return Sym(BOOL, i == z3.If(OI.is_none(vu), n, z3.If(OI.val(vu) < n, OI.val(vu), n)))
+    def within(ex, st):
+        vu = G(st, "vu")
+        return Sym(BOOL, z3.Or(OI.is_none(vu), G(st, "fail_at") < OI.val(vu)))
     def make(ctx):
         c = Contract("validio.Reader.validate_rows", setup,
-                returns=[Clause("rows_called == 1 and _i0 == len(rows) and not rows_failed", "drains-rows()-exactly-once-to-its-end", props=["C06", "C07"])],
-                raises={"DataError": [Clause("rows_failed", "an-error-only-if-rows()-raised-it", props=["C06", "C10"])]},
+                returns=[Clause("rows_called == 1 and not rows_failed", "asks-rows()-exactly-once", props=["C06", "C07"]),
+                         Clause(consumed_ok, "consumes-exactly-min(limit,-data-rows)-rows:-without-a-limit-everything-with-a-limit-N-it-stops-after-N-data-rows", props=["C07", "C18"])],
+                raises={"DataError": [Clause("rows_failed", "an-error-only-if-rows()-raised-it", props=["C06", "C10"]),
+                                      Clause(within, "a-problem-is-reported-only-within-the-first-N-data-rows", props=["C07", "C18"])]},
                 loops={0: LoopSpec(invariants=["rows_called == 1", "not rows_failed"], havoc={"_": STR})},
                 expect=["return", "DataError"], n_loops=1, raises_only_props=["C10"])
-        return {"contract": c, "callees": {"ref:Reader.rows": m_rows}, "assumptions": ["Reader.rows is used through its verified contract (validio.Reader.rows units): a finite sequence that may raise a DataError at any position"]}
-    return ProofUnit("validio.Reader.validate_rows", "Reader.validate_rows: consumes rows() once, completely; errors are those of rows()", ["C06", "C07", "C10"], make, None)
+        return {"contract": c, "callees": {"ref:Reader.rows": m_rows, "builtin:itertools.islice": m_islice},
+                "assumptions": ["Reader.rows is used through its verified contract (validio.Reader.rows units): a finite sequence that may raise a DataError at any position",
+                                "itertools.islice(it, n) delivers the first min(n, len) items and then stops without exhausting `it`"]}
+    return ProofUnit("validio.Reader.validate_rows", "Reader.validate_rows: consumes rows() once, up to the validation limit (N data rows); errors are those of rows() within that part", ["C06", "C07", "C10", "C18"], make, None)
 
 
 def unit_writer_write_rows():
